@@ -329,7 +329,12 @@ def run_cases(engine_name, cases, workers=None, budget_s=None, on_result=None):
                 except StopIteration:
                     exhausted = True
                     break
-                fut = ex.submit(_worker, (engine_name, c))
+                try:
+                    fut = ex.submit(_worker, (engine_name, c))
+                except Exception as e:      # broken pool (a worker was killed): stop submitting
+                    out.append((c, {'verdict': 'harness_error', 'detail': 'submit failed: %r' % (e,), 'stats': {}, 'wall': 0}))
+                    exhausted = True
+                    break
                 pending[fut] = c
             if not pending:
                 break
